@@ -27,7 +27,7 @@ func rulesC03Iter(c *Ctx) {
 	c.Analysed[fname(fn)] = true
 	// the "subtree is entirely above the seek key" flag: a bool phi one of whose edges is Compare(...) < 0
 	var flag ssa.Value
-	for _, b := range fn.Blocks {
+	for _, b := range blocksIP(fn) {
 		for _, in := range b.Instrs {
 			bo, ok := in.(*ssa.BinOp)
 			if !ok {
